@@ -30,6 +30,83 @@ def _tokens(s):
     return set(re.findall(r'[A-Za-z_][A-Za-z_0-9]*', re.sub(r'(->|\.)\s*[A-Za-z_][A-Za-z_0-9]*', '', s)))
 
 
+_FACTS_PROG = {}
+_IMPORT_STACK = []
+
+
+def _outparam_import(f, cond, lab):
+    """`if (check(v, &i) == false) return ...;` - facts the validating helper guarantees about *param at its success returns,
+    renamed to the caller's variable (the helper's other parameters mapped to the actual arguments)."""
+    prog = _FACTS_PROG.get('prog')
+    if prog is None:
+        return set()
+    c = strip_parens(cond)
+    truth = lab == 'T'
+    while c.get('kind') == 'UnaryOperator' and c.get('opcode') == '!':
+        truth = not truth
+        c = strip_parens(children(c)[0])
+    call = None
+    if c.get('kind') == 'BinaryOperator' and c.get('opcode') in ('==', '!='):
+        a, b = children(c)
+        for (x, o) in ((a, b), (b, a)):
+            if strip(x).get('kind') == 'CallExpr' and int_value(o) == 0:
+                call = strip(x)
+                truth = truth if c['opcode'] == '!=' else (not truth)
+    elif c.get('kind') == 'CallExpr':
+        call = c
+    if call is None or not truth:
+        return set()
+    nm = prog.callee_name(call)
+    h = prog.resolve_name(f.unit, nm) if nm else None
+    if h is None or getattr(h, 'body', None) is None or not h.static or h.name in _IMPORT_STACK or len(_IMPORT_STACK) > 2:
+        return set()
+    args = children(call)[1:]
+    outs = {}
+    amap = {}
+    for p_, a in zip(h.params, args):
+        sa = strip(a)
+        if sa.get('kind') == 'UnaryOperator' and sa.get('opcode') == '&' and strip(children(sa)[0]).get('kind') == 'DeclRefExpr':
+            outs['(*%s)' % p_.get('name')] = canon(children(sa)[0])
+        else:
+            amap[p_.get('name')] = canon(a)
+    if not outs:
+        return set()
+    _IMPORT_STACK.append(h.name)
+    try:
+        hf = Facts(h)
+    finally:
+        _IMPORT_STACK.pop()
+    common = None
+    for r in h.cfg.returns():
+        if not children(r.ast):
+            continue
+        v = int_value(children(r.ast)[0])
+        if v == 0:
+            continue
+        if not isinstance(v, int):
+            return set()                 # a computed result: success is not a syntactic fact
+        common = set(hf.at(r)) if common is None else (common & set(hf.at(r)))
+    out = set()
+
+    def rename(t):
+        if t in outs:
+            return outs[t]
+        if re.match(r'^-?\d+$', t):
+            return t
+        m = re.match(r'^([A-Za-z_]\w*)((?:->\w+)+)$', t)
+        if m and m.group(1) in amap:
+            return amap[m.group(1)] + m.group(2)
+        if t in amap:
+            return amap[t]
+        return None
+    for (a, op, b, dom) in (common or ()):
+        if a in outs or b in outs:
+            ra, rb = rename(a), rename(b)
+            if ra is not None and rb is not None:
+                out.add((ra, op, rb, dom))
+    return out
+
+
 class Facts:
     """Must-facts (lhs, rel, rhs, domain) valid at the entry of each CFG node."""
 
@@ -54,6 +131,10 @@ class Facts:
                         p = access_path(children(x)[0])
                         if p and '->' in p:
                             st = {ft for ft in st if p not in (ft[0], ft[2])}
+                        l0 = strip(children(x)[0])
+                        if l0.get('kind') == 'UnaryOperator' and l0.get('opcode') == '*':
+                            cp = canon(l0)              # *out = ... : facts about the pointee die
+                            st = {ft for ft in st if cp not in ft[0] and cp not in ft[2]}
                     elif x.get('kind') == 'UnaryOperator' and x.get('opcode') in ('++', '--'):
                         p = access_path(children(x)[0])
                         if p and '->' in p:
@@ -87,6 +168,9 @@ class Facts:
                                     A, B = ft[2].split('\x00')
                                     st2.add((B, '<', A, 'u'))
                                     st2.add((A, '>', B, 'u'))
+                if n.kind == 'cond' and lab in ('T', 'F') and isinstance(n.ast, dict):
+                    st2 |= _outparam_import(f, n.ast, lab)
+                    # the out-parameter itself was rewritten by the call: older facts about it are gone
                 old = self.IN.get(s.id)
                 new = frozenset(st2) if old is None else (old & frozenset(st2))
                 if old is None or new != old:
@@ -114,6 +198,7 @@ def _split_index(e):
 
 
 def rule_idx(prog, rep, rid='IDX'):
+    _FACTS_PROG['prog'] = prog
     rep.rule(rid, 'every element address X->data + E*X->objsize is computed with 0 <= E and E bounded by X->num on all paths')
     prog.unit(UNIT)
 
@@ -425,6 +510,7 @@ def rule_helper_index(prog, rep, rid='V2'):
     rep.rule(rid, 'the index handed to an index-normalising helper is the caller\'s unmodified parameter, a constant, or proven >= 0')
     prog.unit(UNIT)
     helpers = {}
+    byref = set()
     for f in prog.funcs_in(UNIT):
         for i, p in enumerate(f.params):
             if p.get('name') and qtype(p) == 'int':
@@ -433,6 +519,14 @@ def rule_helper_index(prog, rep, rid='V2'):
                            and canon(children(x)[1]).endswith('->num') for x in walk(f.body))
                 if norm and f.static:
                     helpers[f.name] = i
+            elif p.get('name') and (qtype(p) or '').replace(' ', '') == 'int*':
+                # by reference: `*index += X->num`
+                nm = p.get('name')
+                norm = any(x.get('kind') == 'CompoundAssignOperator' and x.get('opcode') == '+=' and canon(children(x)[0]) == '(*%s)' % nm
+                           and canon(children(x)[1]).endswith('->num') for x in walk(f.body))
+                if norm and f.static:
+                    helpers[f.name] = i
+                    byref.add(f.name)
     rep.notes['index_normalising_helpers'] = sorted(helpers)
     rep.broken_if(not helpers, 'no index-normalising helper found in qvector.c')
     for f in sorted(prog.funcs_in(UNIT), key=lambda x: x.line or 0):
@@ -448,6 +542,8 @@ def rule_helper_index(prog, rep, rid='V2'):
                     if i >= len(args):
                         continue
                     a = strip(args[i])
+                    if prog.callee_name(x) in byref and a.get('kind') == 'UnaryOperator' and a.get('opcode') == '&':
+                        a = strip(children(a)[0])
                     rep.instance(rid)
                     ok = False
                     why = ''
